@@ -228,6 +228,11 @@ def install_sfc(w):
 
         H[f"snowflake.connector.converter.SnowflakeConverter.{nm}"] = mk(f)
 
+    def conv_new(ex, st, cls, args, kw, node):
+        return ex.new_object(st, conv.SnowflakeConverter)
+
+    H["snowflake.connector.converter.SnowflakeConverter.__new__*"] = conv_new
+
     def sf_literal(ex, st, args):
         return Val(QUO(ESC(TOSF(args[0].t))), None)
 
